@@ -280,8 +280,9 @@ def rowMatch (n1 n2 : Nat) (l r : List Key) : Bool :=
 
 end Spec
 
-/-- Arity check of `join_on_key` / the final `raise Exception`. -/
-def arityOk (n1 n2 : Nat) : Bool := n1 ≥ 1 && n2 ≥ 1 && (n1 == n2 || n1 == 1 || n2 == 1)
+/-- The arities on which the coded branches produce a mask (everything else ends in the final
+`raise Exception` or in an `IndexError` on an empty key tuple). -/
+def arityOk (n1 n2 : Nat) : Bool := n1 != 0 && (n1 == n2 || n1 == 1 || n2 == 1)
 
 /-- A join-mask function given by a row test: row selected ⇔ some selected partner row matches. -/
 def jmOf (f : Nat → Nat → List Key → List Key → Bool) (kl kr : List (List Key)) (n1 n2 : Nat) : Res :=
@@ -416,7 +417,8 @@ def rowsOk (l r : List Key) : Bool := (l.zip r).all fun p => pairOk p.1 p.2
 
 def joinOk (L : Dataset) (j : Join) (R : Dataset) : Bool :=
   arityOk j.own.length j.oth.length &&
-  (L.rows.all fun lr => R.rows.all fun rr => rowsOk (rowKeys L.dts j.own lr) (rowKeys R.dts j.oth rr))
+  (j.own.length != j.oth.length ||
+    L.rows.all fun lr => R.rows.all fun rr => rowsOk (rowKeys L.dts j.own lr) (rowKeys R.dts j.oth rr))
 
 def worldOk (w : World) : Bool :=
   w.all fun L => L.joins.all fun j =>
